@@ -32,10 +32,17 @@ Requested(D) == {k \in 1..Len(D.vfs) : D.vfs[k].name \in D.req}
 SourcesOf(D, v) == {m \in 1..Len(D.masters) : D.masters[m].disc = v.disc /\ v.lo <= D.masters[m].pos /\ D.masters[m].pos <= v.hi}
 DefaultOf(D, v) == {m \in SourcesOf(D, v) : D.masters[m].pos = v.dflt}
 HasDefault(D, v) == DefaultOf(D, v) # {}
-Fails(D) == \E k \in Requested(D) : ~HasDefault(D, D.vfs[k])
+NoDefault(D) == \E k \in Requested(D) : ~HasDefault(D, D.vfs[k])
 Needed(D) == UNION {SourcesOf(D, D.vfs[k]) : k \in Requested(D)}
 SubSpaces(D) == {D.masters[m].disc : m \in 1..Len(D.masters)}
 Group(D, d) == {m \in Needed(D) : D.masters[m].disc = d}
+\* A limitation of the code that trace validation of this model brought out (first version of the model: DRIFT on a document
+\* whose only variable font spans positions 1..2): the sources of a sub-space are compiled as a designspace of their own,
+\* restricted to the needed ones, and the glyph instantiator built for it insists on a source at the DOCUMENT's default
+\* position (0) -- so a build whose requested variable fonts all leave out that position raises InstantiatorError although
+\* every one of them has its own default master.
+GroupLacksDocDefault(D) == \E d \in SubSpaces(D) : Group(D, d) # {} /\ ~\E m \in Group(D, d) : D.masters[m].pos = 0
+Fails(D) == NoDefault(D) \/ GroupLacksDocDefault(D)
 Groups(D) == {Group(D, d) : d \in SubSpaces(D)} \ {{}}
 Base(D, v) == CHOOSE m \in DefaultOf(D, v) : TRUE
 \* the default source of a whole sub-space: the master at the DOCUMENT's default position (0)
@@ -73,10 +80,13 @@ UnitSources(u) == IF PerVF THEN SourcesOf(Doc, Doc.vfs[u]) ELSE {m \in needed : 
 CompileStep ==
   /\ pc = "compile" /\ vi <= Len(Units)
   /\ LET S == UnitSources(Units[vi]) IN
-     IF S = {} THEN UNCHANGED <<calls, last>>
-     ELSE /\ calls' = Append(calls, S)
-          /\ last' = [m \in 1..Len(Doc.masters) |-> IF m \in S THEN Len(calls) + 1 ELSE last[m]]
-  /\ vi' = vi + 1 /\ UNCHANGED <<Doc, pc, needed, base, failed>>
+     IF S = {} THEN UNCHANGED <<calls, last, pc>>
+     ELSE IF ~\E m \in S : Doc.masters[m].pos = 0
+          THEN pc' = "raised" /\ UNCHANGED <<calls, last>>        \* (the instantiator of this compile finds no default source)
+          ELSE /\ calls' = Append(calls, S)
+               /\ last' = [m \in 1..Len(Doc.masters) |-> IF m \in S THEN Len(calls) + 1 ELSE last[m]]
+               /\ UNCHANGED pc
+  /\ vi' = vi + 1 /\ UNCHANGED <<Doc, needed, base, failed>>
 CompileDone ==
   /\ pc = "compile" /\ vi > Len(Units) /\ pc' = "done" /\ UNCHANGED <<Doc, vi, needed, base, calls, last, failed>>
 
